@@ -24,12 +24,20 @@ type muxFrame struct {
 	opts FrameOptions
 }
 
+// muxChunk is an application chunk (an id the container format does not define).
+type muxChunk struct {
+	id   ChunkID
+	data []byte
+}
+
 // Muxer assembles a WebP RIFF container from frames and metadata.
 type Muxer struct {
 	frames   []muxFrame
 	iccData  []byte
 	exifData []byte
 	xmpData  []byte
+	// Chunks with ids unknown to the format, written after the metadata.
+	extraChunks []muxChunk
 	// ANIM parameters.
 	bgColor   uint32
 	loopCount int
@@ -181,7 +189,10 @@ func (m *Muxer) NumFrames() int {
 }
 
 // AddChunk adds an arbitrary metadata chunk (e.g. ICCP, EXIF, XMP).
-// Returns an error if the data exceeds the metadata size limit.
+// A chunk with an id the format does not define is stored after the metadata;
+// adding the same id again replaces it and nil data removes it.
+// Returns an error if the data exceeds the metadata size limit or if the id
+// belongs to the container structure itself (VP8X, ANIM, ANMF, ALPH, VP8, VP8L).
 func (m *Muxer) AddChunk(id ChunkID, data []byte) error {
 	if len(data) > maxMetadataSize {
 		return fmt.Errorf("mux: chunk data too large (%d bytes, max %d)", len(data), maxMetadataSize)
@@ -193,6 +204,19 @@ func (m *Muxer) AddChunk(id ChunkID, data []byte) error {
 		m.exifData = data
 	case FourCCXMP:
 		m.xmpData = data
+	case FourCCRIFF, FourCCWEBP, FourCCVP8X, FourCCANIM, FourCCANMF, FourCCALPH, FourCCVP8, FourCCVP8L:
+		return fmt.Errorf("mux: chunk id %q is reserved for the container structure", fourCCString(id))
+	default:
+		kept := m.extraChunks[:0]
+		for _, c := range m.extraChunks {
+			if c.id != id {
+				kept = append(kept, c)
+			}
+		}
+		if data != nil {
+			kept = append(kept, muxChunk{id: id, data: data})
+		}
+		m.extraChunks = kept
 	}
 	return nil
 }
@@ -214,7 +238,7 @@ func (m *Muxer) isAnimated() bool {
 // A separate ALPH chunk can only be stored next to the VP8 chunk in the
 // extended format, so a frame carrying one forces VP8X as well.
 func (m *Muxer) needsVP8X() bool {
-	return m.isAnimated() || m.iccData != nil || m.exifData != nil || m.xmpData != nil || m.hasAlphaChunk()
+	return m.isAnimated() || m.iccData != nil || m.exifData != nil || m.xmpData != nil || len(m.extraChunks) > 0 || m.hasAlphaChunk()
 }
 
 // hasAlphaChunk reports whether any frame's data is prefixed with an ALPH chunk.
@@ -404,6 +428,11 @@ func (m *Muxer) assembleExtended(w io.Writer) error {
 		riffPayload64 += uint64(chunkTotalSize(uint32(len(m.xmpData))))
 	}
 
+	// Application chunks.
+	for _, c := range m.extraChunks {
+		riffPayload64 += uint64(chunkTotalSize(uint32(len(c.data))))
+	}
+
 	if riffPayload64 > uint64(math.MaxUint32) {
 		return fmt.Errorf("mux: RIFF payload too large (%d bytes, exceeds 4GB limit)", riffPayload64)
 	}
@@ -478,6 +507,13 @@ func (m *Muxer) assembleExtended(w io.Writer) error {
 	// Write XMP chunk.
 	if m.xmpData != nil {
 		if err := writeDataChunk(w, FourCCXMP, m.xmpData); err != nil {
+			return err
+		}
+	}
+
+	// Write application chunks.
+	for _, c := range m.extraChunks {
+		if err := writeDataChunk(w, c.id, c.data); err != nil {
 			return err
 		}
 	}
